@@ -4,6 +4,7 @@ import (
 	"encoding/json"
 	"flag"
 	"fmt"
+	"go/token"
 	"os"
 	"path/filepath"
 	"runtime/debug"
@@ -107,8 +108,29 @@ func main() {
 		for _, n := range strings.Split(os.Getenv("SX_NOINLINE"), ",") {
 			sx.NoInline[n] = true
 		}
+		var keys func(p *Path, ind string)
+		keys = func(p *Path, ind string) {
+			for _, st := range p.Steps {
+				switch st.Kind {
+				case "store":
+					fmt.Printf("%sstore heap=%d %s = %s\n", ind, st.Heap, key(st.LHS), key(st.RHS))
+				case "call":
+					if st.Call != nil {
+						fmt.Printf("%scall heap=%d %s\n", ind, st.Heap, key(*st.Call))
+					}
+				case "loop":
+					fmt.Printf("%sloop head=%d\n", ind, st.Loop.HeadEpoch)
+					for _, ip := range st.Loop.Iter {
+						keys(ip, ind+"  ")
+					}
+				}
+			}
+		}
 		for i, p := range sx.Run(fd) {
 			fmt.Printf("== path %d\n%s", i+1, c.pathStr(p, "  "))
+			if os.Getenv("SX_KEYS") != "" {
+				keys(p, "  # ")
+			}
 		}
 		return
 	}
@@ -247,7 +269,17 @@ func runRule(c *Ctx, rule Rule) {
 	first := newReport("tmp")
 	c1 := *c
 	c1.R = first
-	rule.Run(&c1)
+	func() {
+		// an analysis that ends in an internal error has decided nothing: that is reported (exit 1) like any undecided obligation,
+		// never passed over — on the unchanged tree it would show as a broken check, on a changed tree as a change the rule cannot read
+		defer func() {
+			if r := recover(); r != nil {
+				fmt.Fprintf(os.Stderr, "anycheck: internal error in rule %s: %v\n%s\n", rule.ID, r, debug.Stack())
+				c1.Ob(rule.ID, "analysis", token.NoPos).Undecided("the analysis of this rule ended in an internal error (%v): nothing is decided", r)
+			}
+		}()
+		rule.Run(&c1)
+	}()
 	if c.e3 == nil {
 		c.e3 = c1.e3
 	}
